@@ -7,6 +7,7 @@
      D.<c>        disconnect      T.<d>   d ms pass
      R.<c>.<serial>.<name>.<flags>   RequestName (bit0 allow_replacement, bit1 replace_existing, bit2 do_not_queue)
      L.<c>.<serial>.<name>           ReleaseName
+     M.<c>.<serial>.<eavesdrop 0|1>.<type c|r|e|s|x>.<sender u<k>|n<k>|x>.<destination u<k>|n<k>|x>   AddMatch
    result: per step "-" (no output), "!" (ill-formed event) or outputs joined by "+":
      <rcpt>:F.<from>.<token>   <rcpt>:E.<error>.<reply_serial>   <rcpt>:D.<reply_serial>.<code> *)
 open Model_routing
@@ -38,6 +39,12 @@ let parse_event (tok : string) : event =
   | ["R"; c; s; n; f] -> let f = int_of_string f in
       ERequestName (ni c, ni s, ni n, f land 1 <> 0, f land 2 <> 0, f land 4 <> 0)
   | ["L"; c; s; n] -> EReleaseName (ni c, ni s, ni n)
+  | ["M"; c; s; ev; ty; sd; ds] ->
+      let od x = if x = "x" then None else
+        let k = ni (String.sub x 1 (String.length x - 1)) in
+        Some (match x.[0] with 'u' -> DUnique k | 'n' -> DName k | _ -> failwith "rule name") in
+      let oty = (match ty with "x" -> None | "c" -> Some TCall | "r" -> Some TReturn | "e" -> Some TError | "s" -> Some TSignal | _ -> failwith "rule type") in
+      EAddMatch (ni c, ni s, { r_eaves = b ev; r_type = oty; r_sender = od sd; r_dest = od ds })
   | _ -> failwith ("event " ^ tok)
 
 let err_name = function
@@ -53,7 +60,7 @@ let show_out (o : (n * omsg) list) : string =
   String.concat "+" (List.map (fun (r, m) ->
     string_of_int (int_of_n r) ^ ":" ^
     (match m with
-     | OFwd (f, m) -> Printf.sprintf "F.%d.%d" (int_of_n f) (int_of_n m.m_token)
+     | OFwd (f, m) | OEav (f, m) -> Printf.sprintf "F.%d.%d" (int_of_n f) (int_of_n m.m_token)
      | OErr (e, rs) -> Printf.sprintf "E.%s.%d" (err_name e) (int_of_n rs)
      | ODrv (rs, code) -> Printf.sprintf "D.%d.%d" (int_of_n rs) (int_of_n code))) o)
 
@@ -117,10 +124,23 @@ let run_oracle (args : string list) : string =
           (match e with ESend (_, m) -> Hashtbl.replace sent (int_of_n m.m_token) m | _ -> ());
           if not (wf_event !st e) then "!" else begin
             let owner = (match e with ESend (_, m) -> resolve !st m.m_dest | _ -> None) in
+            let eaves = (match e, owner with ESend (c, m), Some w -> eavesdroppers !st c w m | _ -> []) in
             let res = (match parse_out sent otok with
                        | None -> "9"
                        | Some o ->
-                           let c = int_of_n (oracle_step cf !tr owner e o) in
+                           (* a socket cannot tell a forward from an eavesdropped copy: the owner's FIRST copy is the
+                              forward, every other copy (including a second one to the owner) is an eavesdropped copy *)
+                           let o = (match owner with
+                                    | Some w ->
+                                        let seen = ref false in
+                                        let cls = List.map (fun (r, x) -> match x with
+                                          | OFwd (f, m) when r = w && not !seen -> seen := true; (r, x)
+                                          | OFwd (f, m) -> (r, OEav (f, m))
+                                          | _ -> (r, x)) o in
+                                        List.filter (fun (_, x) -> match x with OFwd _ -> true | _ -> false) cls @
+                                        List.filter (fun (_, x) -> match x with OFwd _ -> false | _ -> true) cls
+                                    | None -> o) in
+                           let c = int_of_n (oracle_step cf !tr owner eaves e o) in
                            let detail =
                              if c = 4 then begin
                                let pr l = String.concat "," (List.map (fun (a, s) -> Printf.sprintf "%d.%d" (int_of_n a) (int_of_n s)) l) in
